@@ -77,6 +77,9 @@ def collide_doc():
     return (P.HEAD + "  TOther { id: m; subVal: a.ival }\n  TOther { id: mSub; val: a.jval }\n"
             "  TOther { id: mSubVal; ival: a.ival; onIvalChanged: a.poke() }\n"
             "  TOther { id: x; title: a.text; onTitleChanged: a.poke() }\n  TOther { id: xTitle; onWindowTitleChanged: a.poke(); windowTitle: a.text }\n"
+            # two callbacks whose object + signal concatenations coincide
+            "  TOther { id: y; onWindowTitleChanged: a.poke() }\n  TOther { id: yWindow; onTitleChanged: a.act(1) }\n"
+            "  TOther { id: z; onWindowTitleChanged: a.poke(); windowTitle: a.text }\n  TOther { id: zWindow; onTitleChanged: a.act(2); title: a.textB }\n"
             "  TSource { id: setupT; ival: a.ival }\n  TSource { id: t; ival: a.jval; onIvalChanged: function(v: int) { a.act(v) } }\n}\n")
 
 
@@ -249,6 +252,12 @@ def run(chk):
     docs.append(("minmax", P.HEAD + "  TSource { id: t0; uval: Math.min(a.uval, 3); ival: Math.max(a.ival, 3); dval: Math.max(a.dval, 0.5)\n"
                  "    text: Math.min(a.text, \"m\"); flag: Math.max(a.flag, b.flag); jval: Math.min(7, a.jval) }\n}\n", [VERIF_METATYPES], True))
     docs.append(("fmod", P.HEAD + "  TSource { id: t0; dval: a.dval % 2.0 }\n}\n", [VERIF_METATYPES], True))
+    docs.append(("nonfinite", P.HEAD + "  TSource { id: t0; dval: 1.0 / 0.0 + a.dval }\n  TSource { id: t1; dval: 0.0 % 0.0 + a.dval }\n"
+                 "  TSource { id: t2; dval: -1e999 + a.dval }\n  TSource { id: t3; dval: a.flag ? 1e999 : -(2.0 / 0.0) }\n}\n", [VERIF_METATYPES], True))
+    # callback parameters of gadget type: read only, reassigned, written through a property setter
+    docs.append(("gadgetparam", P.HEAD + "  TSource { id: t0; onFontPicked: function(f: QFont) { a.ival = f.pointSize } }\n"
+                 "  TSource { id: t1; onFontPicked: function(f: QFont) { f = a.font; b.font = f } }\n"
+                 "  TSource { id: t2; onFontPicked: function(f: QFont) { f.bold = a.flag; f.pointSize = a.ival + 1; b.font = f } }\n}\n", [VERIF_METATYPES], True))
     docs.append(("shiftu", P.HEAD + "  TSource { id: t0; uval: a.uval << 3; ival: a.ival >> a.uval; jval: (a.uval as int) + (a.flag as int) + (a.mode as int) }\n}\n", [VERIF_METATYPES], True))
     docs.append(("ctxquote", P.HEAD + "  TSource { id: t0; text: a.flag ? qsTr(\"x\") : a.text }\n}\n", [VERIF_METATYPES], True))
     for n, g in enumerate(GADGET_DOCS):
